@@ -1899,7 +1899,7 @@ def gen_edge_cases():
             for mode in EDGE_MODES:
                 base = list(EDGE_BASES[["asc", "desc", "neg"][i % 3]])
                 stretch = EDGE_STRETCHES[i % len(EDGE_STRETCHES)]
-                dt = "float32" if i % 4 == 3 else "float64"
+                dt = "float32" if (i // 4 + i % 4) % 4 == 3 else "float64"       # every mode gets both dtypes
                 spv = EDGE_SPECIALS[sp]
                 if mode == "frozen-inplace":
                     a = list(base)
@@ -2213,6 +2213,73 @@ def one_edge_big(ctx, drv, case):
                           observed={"vmin": float(norm.vmin), "vmax": float(norm.vmax), "norm([vmin, vmax])": pv}, required=[0.0, 1.0])
 
 
+# stream "alias" (growth 6): the BUFFER level (Model/NormAlias.lean).  S(buf, copy=False) leaves the result in the caller's
+# array (CustomNormalization.__call__ discards the return value and reads the buffer), S(buf, copy=True) leaves it untouched.
+# Correspondence only (aliasing is a mechanism, not a clause of the property).  Fixed block.
+ALIAS_PARAMS = {"LinearStretch": [[1.0, 0.0], [2.0, 0.25], [0.5, 0.0]], "PowerLawStretch": [[1.0], [0.5], [2]],
+                "LogarithmicStretch": [[1000.0], [10]], "InverseLogarithmicStretch": [[1000.0], [3.5]],
+                "InverseHyperbolicSineStretch": [[0.1], [1]], "HyperbolicSineStretch": [[1.0 / 3.0], [2.0]]}
+ALIAS_XS = [0.0, 1.0, 0.5, 0.125, 0.75, -0.5, 1.5, "nan", "inf", "-inf"]
+
+
+def one_alias(ctx, drv, case):
+    np = _np()
+    cn = _cn()
+    ctx.count()
+    ctx.dist["alias:" + case["cls"] + (":copy" if case["copy"] else ":nocopy")] += 1
+    ctx.mark(("alias", case["cls"], tuple(case["params"]), case["copy"]))
+    buf = np.array([unj(v) for v in case["xs"]], dtype=np.float64)
+    m = drv.ask({"op": "alias", "cls": case["cls"], "params": [fbits(p) for p in case["params"]], "xs": [fbits(v) for v in buf.tolist()],
+                 "copy": bool(case["copy"])})
+    if "ok" not in m:
+        raise RuntimeError(f"driver error {m}")
+    try:
+        S = getattr(cn, case["cls"])(*case["params"])
+        r = S(buf, copy=case["copy"])
+        impl = {"ret": [float(v) for v in np.asarray(r).ravel().tolist()], "buf": [float(v) for v in buf.tolist()]}
+    except Exception as e:  # noqa
+        ctx.disagree("alias", case, "values", {"err": err_name(e), "msg": str(e)[:160]}, note="stretch call raised")
+        return
+    for name in ("ret", "buf"):
+        mv = [unbits(b) for b in m["ok"][name]]
+        for j, (a, b) in enumerate(zip(mv, impl[name])):
+            if not close(a, b, 1e-9, max(1.0, abs(a)) if a == a and not math.isinf(a) else 1.0):
+                ctx.disagree("alias", case, {name: a, "i": j}, {name: b, "i": j},
+                             note=("the array S returns" if name == "ret" else "the caller's array after the call") + f" (x={case['xs'][j]})")
+                return
+
+
+def stream_alias(ctx, drv):
+    for cls in STRETCH_CLASSES:
+        for params in ALIAS_PARAMS[cls]:
+            for copy in (False, True):
+                one_alias(ctx, drv, {"stream": "alias", "cls": cls, "params": params, "xs": ALIAS_XS, "copy": copy})
+    # CustomNormalization.__call__ against the buffer-level model (stretch return value discarded, buffer read)
+    np = _np()
+    for k, case in enumerate(c for c in gen_edge_cases() if c["mode"] == "lazy" and c["dtype"] == "float64"):
+        if k % 3:
+            continue
+        arr = np.array([unj(v) for v in case["B"]], dtype=np.float64)
+        m = drv.ask({"op": "callbuf", "cfg": cfg_to_driver(case["cfg"]), "copy": False, "data": [fbits(v) for v in arr.tolist()]})
+        ctx.count()
+        ctx.dist["alias:callbuf"] += 1
+        try:
+            impl = _masked_list(np, make_norm(case["cfg"], None)(arr))
+        except Exception as e:  # noqa
+            impl = err_name(e)
+        if "ok" not in m or isinstance(impl, str):
+            if m.get("err") != impl:
+                ctx.disagree("alias", dict(case, stream="edge"), {"err": m.get("err")}, {"err": impl}, note="outcome of the call (buffer-level model)")
+            continue
+        mv = [unbits(b) for b in m["ok"]["out"]]
+        sel = selected_stretch(case["cfg"])
+        tol = 0.0 if sel and sel[0] == "LinearStretch" else 1e-9
+        bad = [j for j, (a, b) in enumerate(zip(mv, impl)) if not close(a, b, tol, 1.0)]
+        if bad or len(mv) != len(impl):
+            ctx.disagree("alias", dict(case, stream="edge"), {"i": bad[0] if bad else None, "out": mv}, {"out": impl},
+                         note="CustomNormalization.__call__ vs the buffer-level model (copy=False, return value discarded)")
+
+
 def stream_edge(ctx, drv):
     # fixed blocks: the same cases for every seed and tier
     for case in gen_edge_cases():
@@ -2235,6 +2302,7 @@ def run(ctx):
         stream_norm(ctx, drv)
         stream_nhist(ctx, drv)
         stream_edge(ctx, drv)
+        stream_alias(ctx, drv)
         stream_resolve(ctx, drv)
         stream_show(ctx, drv)
     finally:
@@ -2249,14 +2317,14 @@ def replay(ctx, rep):
     if case is None:
         ds = rep.get("correspondence_disagreements") or rep.get("disagreements") or [{}]
         case = ds[0].get("case")
-    if not case or case.get("stream") not in ("norm", "stretch", "resolve", "show", "forms", "shist", "nhist", "edge", "edge-big"):
+    if not case or case.get("stream") not in ("norm", "stretch", "resolve", "show", "forms", "shist", "nhist", "edge", "edge-big", "alias"):
         print("replay: no replayable case in file (tie-only report); re-running the quick streams")
         run(ctx)
         return True
     drv = Driver("C20")
     try:
         {"norm": one_norm, "stretch": one_stretch, "resolve": one_resolve, "show": one_show, "forms": one_forms,
-         "shist": one_shist, "nhist": one_nhist, "edge": one_edge, "edge-big": one_edge_big}[case["stream"]](ctx, drv, case)
+         "shist": one_shist, "nhist": one_nhist, "edge": one_edge, "edge-big": one_edge_big, "alias": one_alias}[case["stream"]](ctx, drv, case)
     finally:
         drv.close()
     return True
